@@ -1964,6 +1964,41 @@ class PyCdlib:
 
         return tmp_path
 
+    def _hidden_boot_file_length(self, entry):
+        # type: (eltorito.EltoritoEntry) -> int
+        """
+        An internal method to find the length of an El Torito boot file that
+        has no directory record.  The only length the boot catalog has is the
+        number of sectors to load, which need not be the length of the file.
+        If the file carries a Boot Info Table that describes this very file
+        (PVD extent, file extent and checksum over the recorded length all
+        match), the length recorded there is the real one.
+
+        Parameters:
+         entry - The El Torito entry of the boot file.
+        Returns:
+         The length to use for the boot file.
+        """
+        length = entry.length()
+        entry_extent = entry.get_rba()
+        orig = self._cdfp.tell()
+        try:
+            self._cdfp.seek(entry_extent * self.logical_block_size + 8)
+            header = self._cdfp.read(eltorito.EltoritoBootInfoTable.header_length())
+            if len(header) == eltorito.EltoritoBootInfoTable.header_length():
+                (pvd_extent, rec_extent, orig_len,
+                 csum) = struct.unpack_from('<LLLL', header, 0)
+                self._cdfp.seek(0, os.SEEK_END)
+                fits = entry_extent * self.logical_block_size + orig_len <= self._cdfp.tell()
+                if pvd_extent == self.pvd.extent_location() and rec_extent == entry_extent and orig_len >= 64 and fits:
+                    self._cdfp.seek(entry_extent * self.logical_block_size)
+                    if self._calculate_eltorito_boot_info_table_csum(self._cdfp, orig_len) == csum:
+                        length = orig_len
+        finally:
+            self._cdfp.seek(orig)
+
+        return length
+
     def _link_eltorito(self, extent_to_inode):
         # type: (Dict[int, inode.Inode]) -> None
         """
@@ -1990,8 +2025,8 @@ class PyCdlib:
                 ino = extent_to_inode[entry_extent]
             else:
                 ino = inode.Inode()
-                ino.parse(entry_extent, entry.length(), self._cdfp,
-                          self.logical_block_size)
+                ino.parse(entry_extent, self._hidden_boot_file_length(entry),
+                          self._cdfp, self.logical_block_size)
                 extent_to_inode[entry_extent] = ino
                 self.inodes.append(ino)
 
